@@ -8,7 +8,8 @@ import B6.Spec.Referrers
 * `OverlayWorld` lookups (`FindFeatureByID`, `HasFeatureWithID`, `FindLocationByID`), `EachFeature`
   (overlay, then base filtered by the overlay's IDs) and the by-ID unions
   (`FindRelationsByFeature`, `FindCollectionsByFeature`, `FindAreasByPoint`, `FindReferences`)
-  after the repairs in /verif/fixes/C16-*.patch; `…Old` are the same before the repairs.
+  after the repairs in /verif/fixes/C16-*.patch (the reference queries: breadth-first closure over both
+  layers); `…Old` / `findRefsUnion` are the same before the repairs.
 
 A layer is a list of features (a basic world); what a layer answers to a reference query is the
 transitive referrer set within that layer (C15).
@@ -190,14 +191,44 @@ def Layer.findRefs (l : Layer) (id : Id) (typed : List Nat) : Option (List Feat)
 def byIdUnion (xs : List Feat) : List Feat :=
   xs.foldl (fun acc f => if acc.any (fun g => decide (g.id = f.id)) then acc.map (fun g => if g.id = f.id then f else g) else acc ++ [f]) []
 
-/-- the by-ID unions of `OverlayWorld` after the repair: the base's answer without the features the
-overlay shadows, then the overlay's answer -/
-def OW.findRefs (w : OW) (id : Id) (typed : List Nat) : Option (List Feat) :=
+/-- the by-ID union of the two layers' own answers, without the base features the overlay shadows
+(fixes/C16-overlay-union-skip-shadowed.patch) — correct only for layers that do not interleave along
+reference chains; superseded by the closure below (fixes/C16-union-refs-closure.patch) -/
+def OW.findRefsUnion (w : OW) (id : Id) (typed : List Nat) : Option (List Feat) :=
   match w.base.findRefs id typed, w.overlay.findRefs id typed with
   | some b, some o => some (byIdUnion (b.filter (fun f => !w.overlay.has f.id) ++ o))
   | _, _ => none
 
-/-- before the repair -/
+/-- one round of `OverlayWorld.FindReferences` for the queue element `x`: what the two layers answer for
+`x` (untyped), without the base's answers that the overlay holds, and of those only the features whose
+own `References()` contain `x` -/
+def OW.stepCands (w : OW) (x : Id) : Option (List Feat) :=
+  match w.base.findRefs x [], w.overlay.findRefs x [] with
+  | some b, some o => some ((b.filter (fun f => !w.overlay.has f.id) ++ o).filter fun f => f.refs.contains x)
+  | _, _ => none
+
+/-- `if _, ok := byID[rid]; ok { continue }; byID[rid] = feature; queue = append(queue, rid)` -/
+def visit (acc : List Feat × List Id) (f : Feat) : List Feat × List Id :=
+  if acc.1.any (fun g => decide (g.id = f.id)) then acc else (acc.1 ++ [f], acc.2 ++ [f.id])
+
+/-- the loop `for len(queue) > 0`: `acc` is `byID` in insertion order. `none` = out of fuel (or a layer
+that does not answer). -/
+def OW.bfs (w : OW) : Nat → List Id → List Feat → Option (List Feat)
+  | _, [], acc => some acc
+  | 0, _ :: _, _ => none
+  | fuel + 1, x :: q, acc =>
+    match w.stepCands x with
+    | none => none
+    | some cands => w.bfs fuel (q ++ (cands.foldl visit (acc, [])).2) (cands.foldl visit (acc, [])).1
+
+/-- `OverlayWorld.FindReferences(id, typed…)` after fixes/C16-union-refs-closure.patch (the other three
+queries call it with their type): breadth-first through the current version of every feature. -/
+def OW.findRefs (w : OW) (id : Id) (typed : List Nat) : Option (List Feat) :=
+  match w.bfs (w.base.length + w.overlay.length + 2) [id] [] with
+  | some R => some (R.filter fun f => typeOk typed f.id)
+  | none => none
+
+/-- before both repairs -/
 def OW.findRefsOld (w : OW) (id : Id) (typed : List Nat) : Option (List Feat) :=
   match w.base.findRefs id typed, w.overlay.findRefs id typed with
   | some b, some o => some (byIdUnion (b ++ o))
@@ -208,8 +239,8 @@ def OW.specRefs (w : OW) (id : Id) (typed : List Nat) : Option (List Feat) := w.
 
 /-- the layers do not interleave along reference chains: no base feature that survives references an
 ID the overlay holds, and an overlay feature references outside the overlay only IDs whose base
-feature (if any) references nothing. Outside this class the by-ID unions miss or invent referrers
-(finding `layer_crossing`). -/
+feature (if any) references nothing. Outside this class the by-ID unions (`findRefsUnion`) missed or
+invented referrers — the former finding `layer_crossing`, repaired by the closure `findRefs`. -/
 def OW.independent (w : OW) : Bool :=
   (w.base.all fun y => w.overlay.has y.id || y.refs.all fun t => !w.overlay.has t) &&
   (w.overlay.all fun z => z.refs.all fun t => w.overlay.has t ||
